@@ -58,8 +58,8 @@ ASSUMPTIONS = ['evaluation of replace-free function arrays is the reference for 
                'finite differences: central, steps 2e-3 and 1e-3, Richardson extrapolated; cases whose two steps disagree by more than 1e-3 relative are skipped and counted',
                'linearisation with respect to an int argument is only compared with the derivative contraction (nutils defines it as zero)',
                'a narrower value kind (bool/int for float, float for complex) is a safe cast and not required to be rejected']
-BUDGET_S = {'quick': 80, 'thorough': 1350}
-NCASES = {'quick': 1500, 'thorough': 40000}
+BUDGET_S = {'quick': 75, 'thorough': 1350}
+NCASES = {'quick': 1500, 'thorough': 30000}
 if os.environ.get('C13_NCASES'):   # development only (narrow runs with --workers 3 on a loaded machine)
     NCASES = {k: int(os.environ['C13_NCASES']) for k in NCASES}
 if os.environ.get('C13_BUDGET'):
@@ -740,7 +740,7 @@ def _alarm(signum, frame):
     raise CaseTimeout()
 
 
-CASE_WALL_S = 30   # watchdog only: a case that exceeds it is skipped and counted, never a verdict
+CASE_WALL_S = 20   # watchdog only: a case that exceeds it is skipped and counted, never a verdict
 
 
 def execute(case, res):
@@ -926,7 +926,7 @@ def finalize(m, tier, seed):
     low = [f'{k}={c.get(k, 0)}<{int(v)}' for k, v in floor.items() if c.get(k, 0) < v]
     kinds_needed = ['swap', 'chain', 'rename-new', 'const', 'expr-new', 'expr-self', 'integral']
     missing = [k for k in kinds_needed if not c.get('replace/kind/' + k)]
-    if ran < .5 * n:
+    if ran < .4 * n:
         inc = f'only {ran} of {n} cases ran before the deadline'
     elif c.get('watchdog-skipped', 0) > .02 * n:
         inc = f"{c.get('watchdog-skipped')} cases hit the {CASE_WALL_S}s per-case wall watchdog"
